@@ -6,35 +6,54 @@ configuration within the deviation bound, and each clause of the statement is ev
 assembled from the raw point / face lists (mc/c18_lib.py): unit modulus, constraints, singularity indices,
 harmonic extension under an independently assembled connection Laplacian, Hermitian / flat-connection
 identities of the library's operator, invariance under every relabeling and face-start rotation.
+
+Two further dimensions:
+* planar lattice polygons (right trapezoid, rectangle, right triangle, parallelogram, house, L, hexagon; all
+  triangulations, with and without an interior point) whose border corners turn by exactly 45 / 90 / 135 degrees, so
+  that for even orders the two border-edge contributions at a corner are exactly opposite (order * turning = 180 mod
+  360, decided in Gaussian-integer arithmetic): the constrained vertex must still carry a unit constraint;
+* histories of length two on ONE mesh object: field A built, run and flagged, then field B (other order / n_smooth /
+  element) built, run and flagged on the same mesh; every clause is evaluated after each run, the clauses of the second
+  run under their own subchecks C18.history.*.
 """
 from __future__ import annotations
 import cmath, itertools, math, os
 from mc.core import Report, call, exc_kind
 
 ID = "C18"
-TECHNIQUE = ("bounded-exhaustive sweep (all triangulations of small point sets x all configurations within 2 deviations "
-             "x all relabelings) of the real frame-field solvers vs an independently assembled dense connection-Laplacian oracle")
+TECHNIQUE = ("bounded-exhaustive sweep (all triangulations of small point sets and lattice polygons x all configurations within 2 "
+             "deviations x all relabelings x all length-2 field histories on one mesh object) of the real frame-field solvers vs an "
+             "independently assembled dense connection-Laplacian oracle")
 RULE = ("inputs: every triangulation TRI(P) of the listed planar point sets (paraboloid lift z=(x^2+y^2)/16, and unlifted with "
-        "the library's flat connection), lifted 3x3 / 3x4 grids, tetrahedron, octahedron, icosahedron, 3x3 and 3x4 tori; "
+        "the library's flat connection), lifted 3x3 / 3x4 grids, tetrahedron, octahedron, icosahedron, 3x3 and 3x4 tori; every "
+        "triangulation of the listed planar lattice polygons (exact 45/90/135 degree border corners; default and flat connection); "
         "configurations: order 1-6 x element x n_smooth {0,1,3} in full, the switches features/use_cotan/cad_correction/"
         "smooth_normals within the deviation bound of the tier; relabelings and face-listing deviations (start rotations, "
-        "swaps of adjacent faces) as listed in the bounds; a case = one distinct (labelled and listed mesh, configuration) "
+        "swaps of adjacent faces) as listed in the bounds; histories: ordered pairs (A, B) of configurations (element x order x "
+        "n_smooth {0,3}, A != B), A built/run/flagged then B built/run/flagged on the same mesh object, all clauses after each; a case = one distinct (labelled and listed mesh, configuration) "
         "execution of the real solver; non-trivial = the mesh has constrained elements or is closed (always true here)")
 ASSUMPTIONS = [
     "inputs are oriented manifold triangle complexes in general position (exact integer predicate), <= 12 vertices (icosahedron/torus) ",
     "the set of feature edges (FrameField.feat) and the local bases / edge angles of FrameField.conn are taken as given by the library (subjects of C15 / of the connection); the Laplacian, the fixed/free partition, chi, cotangents are recomputed independently",
     "singularity index normalisation as implemented and documented for crosses: index = angle/(pi/2), so the quantum of an order-n field is 4/n and the indices sum to 4*chi",
-    "excluded and counted: systems with cond(L_II) > 1e8 or |cot a + cot b| < 1e-6, free elements whose exact harmonic value has modulus < 1e-6 (direction undefined), constrained vertices whose constraints cancel (>=3 incident feature edges, or flat connection with odd order), dihedral angles within 1e-6 of the feature threshold",
+    "excluded and counted: systems with cond(L_II) > 1e8 or |cot a + cot b| < 1e-6, free elements whose exact harmonic value has modulus < 1e-6 (direction undefined), constrained vertices left at 0 because their constraints cancel: >=3 incident constrained edges, or <=2 in the unguarded initialisation (odd order or smooth_normals off) when the chart angles of the edges are opposite (exact Gaussian-integer predicate on planar lattice inputs with the flat connection, |sum exp(i*order*angle)| < 1e-6 on the connection's own angles otherwise, taken from the library only under cad_correction which rewrites those angles); in the guarded initialisation (smooth_normals, even order) a vertex with <=2 constrained edges is never excluded; dihedral angles within 1e-6 of the feature threshold",
     "eigen-solver start vector (closed surfaces) and ARPACK are seeded from VERIF_SEED; only seed-independent clauses are asserted there (unit modulus, index quantum and sum)",
     "relabeling / face-start invariance is asserted with smoothing switched off and cad_correction off (OSQP's 1e-3 tolerance is not round-off)",
+    "histories have length two, one fresh mesh object per pair; the first field is not used again after the second one was built (FeatureEdgeDetector results of successive fields share the mesh's 'corners'/'feature' attributes by design)",
+    "lattice polygons: integer coordinates, no three points collinear (exact), all triangulations by flips from an ear-clipping start; corner turning angles and the 'exactly opposite contributions' relation order*turning = 180 mod 360 are decided in integer arithmetic",
 ]
 BOUNDS = {
-    "quick": "TRI(P) for the 7 point sets with <=6 vertices (30 triangulations), lifted grids 3x3 and 3x4, 5 closed meshes; per mesh: order 1-6 x element x n_smooth {0,1,3} in full with the switches within <=1 deviation (144 configurations) + 24 flat-connection configurations on the planar version; relabelings (n_smooth=0, cad off): all n! for n<=4 (24 cfgs), all 5! on one pentagon triangulation and every transposition on the other 5-vertex meshes (12 cfgs); face-listing deviations <=2 on n<=4, <=1 on n=5 (24 cfgs)",
-    "thorough": "TRI(P) for all 13 point sets up to 8 vertices (387 triangulations), grids, closed meshes; switches within <=2 deviations for n<=6, grids and closed meshes (270 + 48 flat configurations per mesh), <=1 for n=7 (144+24), order x element x n_smooth only for n=8 (36+24); relabelings: all n! for n<=5 (42 cfgs n<=4, 24 cfgs n=5), all 6! on one triangulation of each 6-point set (12 cfgs), every transposition on the other 6-vertex meshes (24 cfgs), on every 3rd 7-vertex and every 8th 8-vertex mesh (12 cfgs) and on the 3x3 grid (24 cfgs); face-listing deviations <=2 for n<=5, <=1 for n=6 and every 6th mesh with n>=7 (24 cfgs)",
+    "quick": "TRI(P) for the 7 point sets with <=6 vertices (30 triangulations), lifted grids 3x3 and 3x4, 5 closed meshes; per mesh: order 1-6 x element x n_smooth {0,1,3} in full with the switches within <=1 deviation (144 configurations) + 24 flat-connection configurations on the planar version; relabelings (n_smooth=0, cad off): all n! for n<=4 (24 cfgs), all 5! on one pentagon triangulation and every transposition on the other 5-vertex meshes (12 cfgs); face-listing deviations <=2 on n<=4, <=1 on n=5 (24 cfgs); lattice polygons trap, trap+1, rect+1, rtri+1, para+1, ell (17 triangulations): the same sweep with the inert features switch left on (108 + 24 flat configurations); histories: 216 ordered pairs (same element: order or n_smooth differs; other element: all order pairs, n_smooth 0) on each of 14 meshes (TRI of the <=5-point sets with interior vertices, grid 3x3, tetrahedron, octahedron, torus 3x3, TRI(trap+1), TRI(rtri+1))",
+    "thorough": "TRI(P) for all 13 point sets up to 8 vertices (387 triangulations), grids, closed meshes; switches within <=2 deviations for n<=6, grids and closed meshes (270 + 48 flat configurations per mesh), <=1 for n=7 (144+24), order x element x n_smooth only for n=8 (36+24); relabelings: all n! for n<=5 (42 cfgs n<=4, 24 cfgs n=5), all 6! on one triangulation of each 6-point set (12 cfgs), every transposition on the other 6-vertex meshes (24 cfgs), on every 3rd 7-vertex and every 8th 8-vertex mesh (12 cfgs) and on the 3x3 grid (24 cfgs); face-listing deviations <=2 for n<=5, <=1 for n=6 and every 6th mesh with n>=7 (24 cfgs); lattice polygons: all 11 sets (91 triangulations), switches within <=2 deviations for n<=6, <=1 for n=7; histories: all 552 ordered pairs of element x order x n_smooth {0,3} on each of 94 meshes (TRI of the <=6-point sets with interior vertices, grid 3x3, 5 closed meshes, TRI of the 7 lattice sets with an interior point)",
 }
 
 SEED = int(os.environ.get("VERIF_SEED", "0") or 0)
 TOL = 1e-6
+LATTICE_QUICK = ["trap", "trap+1", "rect+1", "rtri+1", "para+1", "ell"]
+LATTICE_ALL = LATTICE_QUICK + ["house", "house+1", "ell+1", "hex", "hex+1"]
+HISTORY_LATTICE_QUICK = ["trap+1", "rtri+1"]
+PINNED_LATTICE = {"trap": 2, "trap+1": 3, "rect+1": 3, "rtri+1": 1, "para+1": 3, "house": 5, "house+1": 10, "ell": 5, "ell+1": 9,
+                  "hex": 14, "hex+1": 36}
 QUICK_SETS = ["t3+1", "q4", "q4+1", "t3+2", "p5", "p5+1", "q4+2"]
 ALL_SETS = ["t3+1", "q4", "q4+1", "t3+2", "p5", "p5+1", "q4+2", "h6", "h6+1", "p5+2", "h7", "h6+2", "h8"]
 PINNED_COUNTS = {"t3+1": 1, "q4": 2, "q4+1": 3, "t3+2": 2, "p5": 5, "p5+1": 11, "q4+2": 6, "h6": 14, "h6+1": 36,
@@ -49,6 +68,17 @@ def _tri_family(name):
     assert L.general_position(P, nh), name
     T = F.tri_enum(P, L.start_triangulation(P, nh))
     assert len(T) == PINNED_COUNTS[name], (name, len(T))
+    return P, [[list(t) for t in tri] for tri in T]
+
+
+def _lattice_family(name):
+    """all triangulations of a planar lattice polygon (+ interior points), kept planar (z = 0)"""
+    from mc import families as F
+    from mc import c18_lib as L
+    P, nb = L.LATTICE_SETS[name]
+    assert L.lattice_general_position(P, nb), name
+    T = F.tri_enum(P, L.polygon_start_triangulation(P, nb))
+    assert len(T) == PINNED_LATTICE[name], (name, len(T))
     return P, [[list(t) for t in tri] for tri in T]
 
 
@@ -67,8 +97,9 @@ def _closed():
     return out
 
 
-def _configs(el, maxdev=2, flat=False):
-    """order x n_smooth in full; the boolean switches within <= maxdev deviations of the defaults (all True)."""
+def _configs(el, maxdev=2, flat=False, inert=()):
+    """order x n_smooth in full; the boolean switches within <= maxdev deviations of the defaults (all True).
+    `inert`: switches that cannot change anything on the input (features on a planar mesh) and are left at their default."""
     out = []
     if flat:
         for order in range(1, 7):
@@ -76,7 +107,7 @@ def _configs(el, maxdev=2, flat=False):
                 for cot in ((True, False) if maxdev >= 2 else (True,)):
                     out.append({"el": el, "order": order, "ns": ns, "feat": True, "cot": cot, "cad": False, "sn": True, "flat": True})
         return out
-    switches = ["feat", "cot"] + (["cad", "sn"] if el == "vertices" else [])
+    switches = [w for w in ["feat", "cot"] + (["cad", "sn"] if el == "vertices" else []) if w not in inert]
     for order in range(1, 7):
         for ns in (0, 1, 3):
             for k in range(maxdev + 1):
@@ -107,6 +138,32 @@ def _inv_configs(level):
                 out.append(dict(base, cot=False))
                 if el == "vertices":
                     out.append(dict(base, sn=False))
+    return out
+
+
+def _hist_configs():
+    """configurations of the history dimension: element x order 1-6 x n_smooth {0,3}, default switches (cad_correction off)"""
+    return [{"el": el, "order": order, "ns": ns, "feat": True, "cot": True, "cad": False, "sn": True, "flat": False}
+            for el in ("faces", "vertices") for order in range(1, 7) for ns in (0, 3)]
+
+
+def _hist_pairs(tier):
+    """ordered pairs (A, B), A != B, of indices into _hist_configs(): field A then field B on the same mesh object.
+    quick (216): same element: every pair differing in the order only or in n_smooth only (2 x 72); other element: every
+    pair of orders with n_smooth 0 (72).  thorough (552): all ordered pairs."""
+    C = _hist_configs()
+    out = []
+    for i, A in enumerate(C):
+        for j, B in enumerate(C):
+            if i == j:
+                continue
+            if tier != "quick":
+                out.append([i, j])
+            elif A["el"] == B["el"]:
+                if (A["order"] != B["order"]) != (A["ns"] != B["ns"]):
+                    out.append([i, j])
+            elif A["ns"] == 0 and B["ns"] == 0:
+                out.append([i, j])
     return out
 
 
@@ -142,6 +199,32 @@ def tasks(tier):
     for name, p, f in _closed():
         for el in ("vertices", "faces"):
             out.append({"kind": "sweep", "mesh": name, "pts": p, "faces": f, "el": el, "planar": None, "maxdev": 1 if quick else 2})
+    # ---- planar lattice polygons with exact 45 / 90 / 135 degree border corners (kept planar: default and flat connection)
+    lat = {}
+    for s in (LATTICE_QUICK if quick else LATTICE_ALL):
+        P, tris = _lattice_family(s)
+        lat[s] = [(f"lat:{s}#{i}", len(P), P, tri) for i, tri in enumerate(tris)]
+        for name, n, P, tri in lat[s]:
+            for el in ("vertices", "faces"):
+                out.append({"kind": "sweep", "mesh": name, "pts": L.flat(P), "faces": tri, "el": el, "planar": [list(p) for p in P],
+                            "maxdev": 1 if quick else (2 if n <= 6 else 1), "inert": ["feat"]})
+    # ---- histories: two fields built, run and flagged one after the other on the same mesh object
+    hist = []
+    for s in sets:
+        P0, nh = L.POINT_SETS[s]
+        if len(P0) > nh and (len(P0) <= 5 or not quick) and len(P0) <= 6:      # point sets with interior vertices
+            hist += [(name, L.lift(P), tri) for name, n, P, tri in fam[s]]
+    p, f = _grid(3, 3)
+    hist.append(("grid3x3", p, f))
+    hist += [(name, p, f) for name, p, f in _closed() if not quick or name in ("tetrahedron", "octahedron", "torus3x3")]
+    for s in lat:
+        if len(L.LATTICE_SETS[s][0]) > L.LATTICE_SETS[s][1] and (not quick or s in HISTORY_LATTICE_QUICK):
+            hist += [(name, L.flat(P), tri) for name, n, P, tri in lat[s]]
+    pairs = _hist_pairs(tier)
+    HCH = 48
+    for name, p, f in hist:
+        for i in range(0, len(pairs), HCH):
+            out.append({"kind": "history", "mesh": name, "pts": p, "faces": f, "pairs": pairs[i:i + HCH]})
     # ---- relabelings: (perms, level of the configuration set)
     CH = 40
     for s in sets:
@@ -202,14 +285,16 @@ class Run:
     __slots__ = ("ok", "exc", "msg", "stage", "f", "mesh", "var0", "var", "faces", "singuls", "sing_exc")
 
 
-def _execute(M, pts, faces, cfg, want_sing):
-    """Fresh mesh -> SurfaceFrameField -> initialize (constraints captured) -> run -> flag_singularities."""
+def _execute(M, pts, faces, cfg, want_sing, mesh=None):
+    """Fresh mesh (or the given mesh object, already used by earlier fields) -> SurfaceFrameField -> initialize
+    (constraints captured) -> run -> flag_singularities."""
     import numpy as np
     from mc import families as F
     from mouette import framefield as ff
     r = Run()
     r.ok, r.exc, r.msg, r.stage, r.singuls, r.sing_exc = False, None, "", "build", None, None
-    mesh = F.build_surface(pts, faces)
+    if mesh is None:
+        mesh = F.build_surface(pts, faces)
     r.mesh = mesh
     r.faces = [tuple(int(v) for v in mesh.faces[t]) for t in range(len(mesh.faces))]
     kw = dict(order=cfg["order"], features=cfg["feat"], n_smooth=cfg["ns"], use_cotan=cfg["cot"],
@@ -253,21 +338,28 @@ def _branch_parallel_err(z, order, theta):
     return best
 
 
-def _check(rep: Report, M, name, pts, faces, cfg, want_sing=True, relabel_tag=None):
+def _check(rep: Report, M, name, pts, faces, cfg, want_sing=True, relabel_tag=None, mesh=None, hist=None):
     """One execution of the real code + every clause of the statement that applies. Returns a dict used by the
-    invariance clauses (None if the run failed): {'inv': key->complex, 'skip': reason or None}."""
+    invariance clauses (None if the run failed): {'inv': key->complex, 'skip': reason or None}.
+    `mesh`: run on this mesh object instead of a fresh one; `hist` = {'before': [configurations already run and flagged
+    on that mesh object], 'cls': suffix of the input class}: the clauses are then reported as C18.history.*"""
     import numpy as np
     from mc import c18_lib as L
-    r = _execute(M, pts, faces, cfg, want_sing)
+    r = _execute(M, pts, faces, cfg, want_sing, mesh)
     rep.traces += 1
     rep.transitions += 3
     geo = L.Geo(pts, r.faces)
-    icls = _icls(geo, cfg)
+    icls = _icls(geo, cfg) + (hist["cls"] if hist else "")
     callee = _callee(cfg)
     ctx = {"mesh": name, "pts": pts, "faces": [list(f) for f in r.faces], "cfg": cfg}
     if relabel_tag is not None:
         ctx["relabel"] = relabel_tag
-    rep.case((name, relabel_tag, sorted(cfg.items())))
+    if hist:
+        ctx["run_and_flagged_on_the_same_mesh_object_before"] = hist["before"]
+
+    def viol(sub, callee_, kind, icls_, detail):
+        rep.violation(("C18.history." + sub[len("C18."):]) if hist else sub, callee_, kind, icls_, detail)
+    rep.case((name, relabel_tag, sorted(cfg.items()), [sorted(c.items()) for c in hist["before"]] if hist else None))
     rep.states += 1
     rep.flag("closed" if geo.closed else "bordered")
     rep.flag("el:" + cfg["el"])
@@ -275,7 +367,7 @@ def _check(rep: Report, M, name, pts, faces, cfg, want_sing=True, relabel_tag=No
     if [tuple(f) for f in faces] != r.faces:
         rep.count("note_faces_relisted_by_constructor")
     if not r.ok:
-        rep.violation("C18.run", callee + "." + r.stage, "raises:" + str(r.exc), icls, dict(ctx, msg=r.msg[:300]))
+        viol("C18.run", callee + "." + r.stage, "raises:" + str(r.exc), icls, dict(ctx, msg=r.msg[:300]))
         return None
     f = r.f
     order, el = cfg["order"], cfg["el"]
@@ -283,7 +375,7 @@ def _check(rep: Report, M, name, pts, faces, cfg, want_sing=True, relabel_tag=No
     nel = len(var)
     rep.evaluations += 1
     if nel != (geo.n if el == "vertices" else len(geo.F)):
-        rep.violation("C18.unit_modulus", callee + ".var", "mismatch:size", icls, dict(ctx, got=nel))
+        viol("C18.unit_modulus", callee + ".var", "mismatch:size", icls, dict(ctx, got=nel))
         return None
 
     # ---- constrained edges: border (mine) + the library's feature edges
@@ -326,8 +418,8 @@ def _check(rep: Report, M, name, pts, faces, cfg, want_sing=True, relabel_tag=No
             else:
                 d = max(abs(X @ X - 1), abs(Y @ Y - 1), abs(X @ Y))
             if not d < 1e-9:
-                rep.violation("C18.connection.basis", "SurfaceConnection.base", "mismatch:not_orthonormal_tangent", icls,
-                              dict(ctx, element=i, X=X, Y=Y, defect=d))
+                viol("C18.connection.basis", "SurfaceConnection.base", "mismatch:not_orthonormal_tangent", icls,
+                     dict(ctx, element=i, X=X, Y=Y, defect=d))
                 break
 
     # ---- harmonic extension oracle (also tells which free elements have an undefined direction)
@@ -355,14 +447,63 @@ def _check(rep: Report, M, name, pts, faces, cfg, want_sing=True, relabel_tag=No
         skip_inv = "feature-threshold"
         rep.count("filtered_feature_threshold")
 
-    # ---- constrained elements whose constraints cancel (no direction is defined there)
+    # ---- constrained vertices: do the constraints define a direction?
+    # The library has two initialisations. "guarded" (smooth_normals and even order): the sum of (edge direction)**order
+    # over the incident constrained edges, a contribution exactly opposite to the running sum is not added: with <= 2
+    # constrained edges the sum can never vanish, so a direction IS defined (never excluded), also at a corner whose two
+    # border edges give exactly opposite contributions (order * turning angle = 180 mod 360, decided exactly below on
+    # lattice inputs). "unguarded" (odd order or smooth_normals off): plain sum of exp(i*order*chart angle of the edge):
+    # it legitimately vanishes when those angles are opposite (excluded, decided exactly / from the connection's angles).
     cancelled = set()
+    corner = {}           # border vertex with exactly its two border edges constrained -> (previous, next) border vertex
     if el == "vertices":
+        guarded = bool(cfg["sn"]) and order % 2 == 0
+        nbrs = {}
+        for (a, b) in S:
+            nbrs.setdefault(a, []).append(b); nbrs.setdefault(b, []).append(a)
+        nxt = {a: b for (a, b) in geo.he if (b, a) not in geo.he}      # border traversed with the surface on its left
+        prv = {b: a for a, b in nxt.items()}
+        ipts = L.integer_planar(pts)
         for v in fixed:
-            if abs(var0[v]) < 1e-8:
+            opp = None
+            if deg[v] == 2 and v in nxt and v in prv and sorted(nbrs[v]) == sorted((nxt[v], prv[v])):
+                corner[v] = (prv[v], nxt[v])
+                if ipts is not None:
+                    z = L.turning((ipts[v][0] - ipts[prv[v]][0], ipts[v][1] - ipts[prv[v]][1]),
+                                  (ipts[nxt[v]][0] - ipts[v][0], ipts[nxt[v]][1] - ipts[v][1]))
+                    opp = L.opposed(z[0], z[1], order)
+                    rep.flag("lattice_corner_turning:" + L.turning_class(*z))
+                    if opp and guarded and not cfg["flat"]:
+                        rep.flag("opposed_corner:guarded:order%d" % order)
+                        rep.count("corners_with_exactly_opposite_contributions:guarded")
+            if not abs(var0[v]) < 1e-8:
+                continue
+            if deg[v] >= 3:
+                legit = True
+            elif guarded:
+                legit = False
+            elif opp is not None and cfg["flat"]:
+                # flat connection: chart angles = angles in the plane; the two contributions are the order-th powers of the
+                # directions v->next and v->previous = -(incoming edge): exactly opposite iff (-z)**order is a negative real
+                legit = L.opposed(-z[0], -z[1], order)
+            elif not cfg["cad"]:
+                legit = abs(sum(cmath.exp(1j * order * f.conn.transport(v, w)) for w in nbrs[v])) < 1e-6
+            else:
+                legit = True        # cad_correction has already modified the chart angles the constraint was computed from
+            if legit:
                 cancelled.add(v)
                 rep.count("excluded_cancelled_constraint")
                 rep.count("excluded_cancelled_constraint:deg%s:%s" % ("2" if deg[v] <= 2 else ">=3", "odd" if order % 2 else "even"))
+            else:
+                # ---- clause: every constrained vertex whose constraints define a direction carries a unit constraint
+                rep.evaluations += 1
+                viol("C18.constraint.vertices_defined", callee + ".initialize", "mismatch:constraint_is_zero", icls,
+                     dict(ctx, vertex=v, constrained_neighbours=sorted(nbrs[v]), value_after_initialize=complex(var0[v]),
+                     initialisation="guarded sum of (edge direction)**order" if guarded else "sum of exp(i*order*chart angle)",
+                     contributions_exactly_opposite=opp))
+                break
+        if corner:
+            rep.outcome("corner_constraint_defined", "unit" if all(abs(abs(var0[v]) - 1) < 1e-9 for v in corner) else "some_zero")
 
     # ---- clause: unit modulus on every element
     for i in range(nel):
@@ -370,8 +511,8 @@ def _check(rep: Report, M, name, pts, faces, cfg, want_sing=True, relabel_tag=No
             continue
         rep.evaluations += 1
         if not abs(abs(var[i]) - 1.0) < 1e-9:
-            rep.violation("C18.unit_modulus", callee + ".run", "mismatch:modulus", icls,
-                          dict(ctx, element=i, value=complex(var[i]), fixed=(i in fixed_set)))
+            viol("C18.unit_modulus", callee + ".run", "mismatch:modulus", icls,
+                 dict(ctx, element=i, value=complex(var[i]), fixed=(i in fixed_set)))
             break
     rep.outcome("modulus", "unit" if all(abs(abs(z) - 1) < 1e-9 for z in var) else "has_non_unit")
 
@@ -379,8 +520,8 @@ def _check(rep: Report, M, name, pts, faces, cfg, want_sing=True, relabel_tag=No
     for i in fixed:
         rep.evaluations += 1
         if not abs(var[i] - var0[i]) < 1e-12:
-            rep.violation("C18.constraint.kept", callee + ".optimize", "mismatch:constraint_changed", icls,
-                          dict(ctx, element=i, before=complex(var0[i]), after=complex(var[i])))
+            viol("C18.constraint.kept", callee + ".optimize", "mismatch:constraint_changed", icls,
+                 dict(ctx, element=i, before=complex(var0[i]), after=complex(var[i])))
             break
     if el == "faces":
         for t in fixed:
@@ -395,51 +536,50 @@ def _check(rep: Report, M, name, pts, faces, cfg, want_sing=True, relabel_tag=No
             err = _branch_parallel_err(var[t], order, th) if abs(var[t]) > 0.5 else math.inf
             rep.outcome("face_constraint", "tangent" if err < TOL else "not_tangent")
             if not err < TOL:
-                rep.violation("C18.constraint.faces_tangent", callee + ".initialize", "mismatch:branch_not_tangent", icls,
-                              dict(ctx, face=t, edge=[a, b], edge_angle_in_face_basis=th, value=complex(var[t]),
-                                   branch_angles=[(cmath.phase(var[t]) + 2 * math.pi * k) / order for k in range(order)],
-                                   error=err))
+                viol("C18.constraint.faces_tangent", callee + ".initialize", "mismatch:branch_not_tangent", icls,
+                     dict(ctx, face=t, edge=[a, b], edge_angle_in_face_basis=th, value=complex(var[t]),
+                          branch_angles=[(cmath.phase(var[t]) + 2 * math.pi * k) / order for k in range(order)],
+                          error=err))
                 break
     elif not cfg["cad"] and not cfg["flat"]:
         # border vertex with exactly its two border edges constrained: documented initialisation
-        nbrs = {}
-        for (a, b) in S:
-            nbrs.setdefault(a, []).append(b); nbrs.setdefault(b, []).append(a)
-        for v in fixed:
-            if deg[v] != 2 or v not in geo.border_vertices or any((min(v, w), max(v, w)) not in geo.border_edges for w in nbrs[v]):
-                continue
+        for v in sorted(corner):
             X, Y = bases[v]
             rep.evaluations += 1
             if cfg["sn"] and order % 2 == 0:
                 s = 0
+                contrib = []
                 for w in nbrs[v]:
                     Ev = geo.P[w] - geo.P[v]
                     c = complex(Ev @ X, Ev @ Y)
-                    s += (c / abs(c)) ** order
+                    contrib.append((c / abs(c)) ** order)
+                    s += contrib[-1]
                 if abs(s) < 1e-6:
-                    rep.count("excluded_cancelled_constraint")
+                    # exactly opposite contributions: the mean is undefined (the unit-constraint clause above still applies)
+                    rep.count("mean_clause_not_applicable:opposite_contributions")
+                    rep.outcome("opposed_corner_constraint", "one_of_the_two_edges" if min(abs(var0[v] - c) for c in contrib) < TOL else "other")
                     continue
                 want = s / abs(s)
                 rep.flag("vertex_constraint_mean")
                 if not abs(var0[v] - want) < TOL:
-                    rep.violation("C18.constraint.vertices_mean", callee + ".initialize", "mismatch:not_mean_of_border_edges", icls,
-                                  dict(ctx, vertex=v, got=complex(var0[v]), want=complex(want)))
+                    viol("C18.constraint.vertices_mean", callee + ".initialize", "mismatch:not_mean_of_border_edges", icls,
+                         dict(ctx, vertex=v, got=complex(var0[v]), want=complex(want)))
                     break
             else:
                 rep.flag("vertex_constraint_follow")
                 errs = [abs(var0[v] - cmath.exp(1j * order * f.conn.transport(v, w))) for w in nbrs[v]]
                 if not max(errs) < TOL:
-                    rep.violation("C18.constraint.vertices_follow_edge", callee + ".initialize", "mismatch:branch_not_tangent", icls,
-                                  dict(ctx, vertex=v, got=complex(var0[v]),
-                                       edge_angles_in_chart=[f.conn.transport(v, w) for w in nbrs[v]]))
+                    viol("C18.constraint.vertices_follow_edge", callee + ".initialize", "mismatch:branch_not_tangent", icls,
+                         dict(ctx, vertex=v, got=complex(var0[v]),
+                              edge_angles_in_chart=[f.conn.transport(v, w) for w in nbrs[v]]))
                     break
 
     # ---- clause: singularity indices (face-based field)
     if el == "faces" and want_sing:
         rep.transitions += 1
         if r.sing_exc is not None:
-            rep.violation("C18.singularities.run", "FrameField2DFaces.flag_singularities", "raises:" + r.sing_exc[0], icls,
-                          dict(ctx, msg=r.sing_exc[1][:300]))
+            viol("C18.singularities.run", "FrameField2DFaces.flag_singularities", "raises:" + r.sing_exc[0], icls,
+                 dict(ctx, msg=r.sing_exc[1][:300]))
         else:
             tot = 0.0
             bad = None
@@ -452,17 +592,21 @@ def _check(rep: Report, M, name, pts, faces, cfg, want_sing=True, relabel_tag=No
                     if bad is None and not abs(q - round(q)) < TOL:
                         bad = (v, idx)
             if bad is not None:
-                rep.violation("C18.singularities.quantum", "FrameField2DFaces.flag_singularities", "mismatch:index_not_multiple_of_quantum", icls,
-                              dict(ctx, vertex=bad[0], index=bad[1], quantum=4.0 / order))
+                viol("C18.singularities.quantum", "FrameField2DFaces.flag_singularities", "mismatch:index_not_multiple_of_quantum", icls,
+                     dict(ctx, vertex=bad[0], index=bad[1], quantum=4.0 / order))
             rep.evaluations += 1
             if not abs(tot - 4 * geo.chi) < geo.n * 1e-3:
-                rep.violation("C18.singularities.sum", "FrameField2DFaces.flag_singularities", "mismatch:index_sum", icls,
-                              dict(ctx, got=tot, want=4 * geo.chi, indices=r.singuls))
+                viol("C18.singularities.sum", "FrameField2DFaces.flag_singularities", "mismatch:index_sum", icls,
+                     dict(ctx, got=tot, want=4 * geo.chi, indices=r.singuls))
             rep.flag("chi=%d" % geo.chi)
 
     # ---- clause: smoothing off on a bordered surface = normalised harmonic extension
     if oracle is not None and not geo.closed:
         rep.flag("harmonic:" + el)
+        if name.startswith("lat:"):
+            rep.flag("harmonic:lattice_polygon:" + el + (":flatconn" if cfg["flat"] else ""))
+        if hist:
+            rep.flag("harmonic:2nd_field_on_mesh:" + el)
         worst_i, worst_e = None, 0.0
         for k, i in enumerate(free):
             if i in zero_free:
@@ -477,7 +621,7 @@ def _check(rep: Report, M, name, pts, faces, cfg, want_sing=True, relabel_tag=No
         herm = float(abs(lib - lib.conj().T).max()) if lib is not None else None
         rep.evaluations += 1
         if herm is not None and not herm < 1e-9 * max(1.0, float(abs(lib).max())):
-            rep.violation("C18.laplacian.hermitian", _lap_name(cfg), "mismatch:not_hermitian", icls, dict(ctx, max_asymmetry=herm))
+            viol("C18.laplacian.hermitian", _lap_name(cfg), "mismatch:not_hermitian", icls, dict(ctx, max_asymmetry=herm))
         if worst_i is not None:
             rows_match = None
             if lib is not None:
@@ -485,11 +629,11 @@ def _check(rep: Report, M, name, pts, faces, cfg, want_sing=True, relabel_tag=No
                 # compare up to a global positive scale
                 sc = (abs(A).sum() / abs(B).sum()) if abs(B).sum() > 0 else 1.0
                 rows_match = bool(abs(A - sc * B).max() < 1e-8 * max(1.0, abs(A).max()))
-            rep.violation("C18.harmonic_extension", callee + ".optimize", "mismatch:free_values", icls,
-                          dict(ctx, element=worst_i, got=complex(var[worst_i]),
-                               want=complex(oracle[free.index(worst_i)] / abs(oracle[free.index(worst_i)])),
-                               error=worst_e, fixed=fixed, free=free,
-                               library_laplacian_rows_match_independent_ones=rows_match))
+            viol("C18.harmonic_extension", callee + ".optimize", "mismatch:free_values", icls,
+                 dict(ctx, element=worst_i, got=complex(var[worst_i]),
+                      want=complex(oracle[free.index(worst_i)] / abs(oracle[free.index(worst_i)])),
+                      error=worst_e, fixed=fixed, free=free,
+                      library_laplacian_rows_match_independent_ones=rows_match))
 
     # ---- invariants for the relabeling clauses: directions relative to the mesh's own edges
     inv = {}
@@ -515,7 +659,7 @@ def _check(rep: Report, M, name, pts, faces, cfg, want_sing=True, relabel_tag=No
         tag = ":interior_feature_vertices:geometric_init"
     if not tag:
         rep.flag("invariance_unambiguous:" + el)
-    return {"inv": inv, "skip": skip_inv, "icls": icls + tag}
+    return {"inv": inv, "skip": skip_inv, "icls": icls + tag, "singuls": r.singuls}
 
 
 def _lap_name(cfg):
@@ -536,7 +680,9 @@ def _sweep(task, rep, M):
     import numpy as np
     from mc import c18_lib as L
     pts, faces, el = task["pts"], [tuple(f) for f in task["faces"]], task["el"]
-    cfgs = _configs(el, task["maxdev"])
+    cfgs = _configs(el, task["maxdev"], inert=task.get("inert", ()))
+    if task.get("inert"):
+        rep.flag("planar_lattice_polygon:" + el)
     for cfg in cfgs:
         _check(rep, M, task["mesh"], pts, faces, cfg)
     if task["planar"] is not None:
@@ -672,6 +818,31 @@ def _listing(task, rep, M):
                       "deviation": [list(t) for t in tag], "cfg": cfg})
 
 
+def _history(task, rep, M):
+    """Histories of length two on one mesh object: field A built, run, flagged and checked; then field B built, run,
+    flagged and checked on the SAME mesh object (whatever A left on it: attributes, caches). One fresh mesh per pair."""
+    from mc import families as F
+    pts, faces = task["pts"], [tuple(f) for f in task["faces"]]
+    C = _hist_configs()
+    for ia, ib in task["pairs"]:
+        A, B = C[ia], C[ib]
+        mesh = F.build_surface(pts, faces)
+        ra = _check(rep, M, task["mesh"], pts, faces, A, mesh=mesh)
+        rb = _check(rep, M, task["mesh"], pts, faces, B, mesh=mesh,
+                    hist={"before": [A], "cls": ":2nd_field_on_mesh_after_" + A["el"]})
+        rep.flag("history:%s_after_%s" % (B["el"], A["el"]))
+        if A["order"] != B["order"]:
+            rep.flag("history:other_order")
+        if A["ns"] != B["ns"]:
+            rep.flag("history:other_n_smooth")
+        if ra and rb and ra["singuls"] is not None and rb["singuls"] is not None:
+            # vacuity guard of the history clause: some vertex flagged for A is not flagged for B (a left-over would show)
+            left = [v for v, x in ra["singuls"].items() if x != 0 and v not in rb["singuls"]]
+            rep.outcome("history_singular_vertices", "B_covers_A" if not left else "A_has_vertices_B_has_not")
+    if len(rep.samples) < 1:
+        rep.sample({"mesh": task["mesh"], "faces": task["faces"], "history": [C[task["pairs"][0][0]], C[task["pairs"][0][1]]]})
+
+
 def run_task(task, rep: Report):
     import numpy as np
     import mouette as M
@@ -682,6 +853,8 @@ def run_task(task, rep: Report):
             _sweep(task, rep, M)
         elif task["kind"] == "relabel":
             _relabel(task, rep, M)
+        elif task["kind"] == "history":
+            _history(task, rep, M)
         else:
             _listing(task, rep, M)
     finally:
@@ -695,7 +868,14 @@ def finish(tier, rep: Report):
             "harmonic:vertices", "harmonic:faces", "hermitian_checked:vertices", "hermitian_checked:faces",
             "flat_checked:vertices", "flat_checked:faces", "complex_entries:vertices", "complex_entries:faces",
             "independent_assembly_agrees:faces", "relabeling", "face_listing_deviation", "face_start_rotation",
-            "chi=1", "chi=2", "chi=0", "interior_feature_edges"]
+            "chi=1", "chi=2", "chi=0", "interior_feature_edges",
+            "planar_lattice_polygon:vertices", "planar_lattice_polygon:faces",
+            "harmonic:lattice_polygon:vertices", "harmonic:lattice_polygon:faces", "harmonic:lattice_polygon:vertices:flatconn",
+            "harmonic:lattice_polygon:faces:flatconn", "harmonic:2nd_field_on_mesh:vertices", "harmonic:2nd_field_on_mesh:faces",
+            "lattice_corner_turning:45", "lattice_corner_turning:90", "lattice_corner_turning:135", "lattice_corner_turning:-90",
+            "opposed_corner:guarded:order2", "opposed_corner:guarded:order4", "opposed_corner:guarded:order6",
+            "history:faces_after_faces", "history:faces_after_vertices", "history:vertices_after_faces",
+            "history:vertices_after_vertices", "history:other_order", "history:other_n_smooth"]
     for f in need:
         if f not in rep.flags:
             fails.append("coverage flag missing: " + f)
@@ -707,6 +887,12 @@ def finish(tier, rep: Report):
         fails.append("invariance clause never held")
     if "tangent" not in rep.outcomes.get("face_constraint", ()):
         fails.append("face constraint clause never held")
+    if "A_has_vertices_B_has_not" not in rep.outcomes.get("history_singular_vertices", ()):
+        fails.append("history: no pair of fields where the first one flags a vertex that the second one does not (a left-over index could not show)")
+    if "unit" not in rep.outcomes.get("corner_constraint_defined", ()):
+        fails.append("border-corner constraints were never all of unit modulus")
+    if not rep.outcomes.get("opposed_corner_constraint"):
+        fails.append("no border corner with exactly opposite edge contributions reached the constraint clause")
     return fails
 
 
